@@ -98,11 +98,15 @@ class Lexer:
         return self.nextToken < len(self.tokens)
 
     def next(self):
+        if not self.hasNext():
+            raise CklSyntaxError("Unexpected end of input", self.getPos())
         result = self.tokens[self.nextToken]
         self.nextToken += 1
         return result
 
     def peek(self):
+        if not self.hasNext():
+            raise CklSyntaxError("Unexpected end of input", self.getPos())
         return self.tokens[self.nextToken]
 
     def eat(self, n):
@@ -119,8 +123,10 @@ class Lexer:
         return self.tokens[self.nextToken - 1].pos
 
     def getPosNext(self):
+        if not self.tokens:
+            return SourcePos(self.name, 1, 1)
         if not self.hasNext():
-            return self.getPos()
+            return self.tokens[-1].pos
         return self.tokens[self.nextToken].pos
 
     def peekn(self, n, token, tokentype=None):
